@@ -78,6 +78,13 @@ func (e *Engine) callFunction(caller *frame, fn *ssa.Function, args []Value, env
 		e.res.Intrinsics[key]++
 		return in(e, caller, fn, args)
 	}
+	if strings.HasPrefix(key, "(*sync/atomic.Pointer[") {
+		// sync/atomic.Pointer[T]: the pointer lives in a side table keyed by the receiver (an atomic cell)
+		if r, ok := e.atomicPointer(fn, key, args); ok {
+			e.res.Intrinsics[key]++
+			return r
+		}
+	}
 	if pk := fn.Package(); pk != nil {
 		if in, ok := pkgIntrinsics[pk.Pkg.Path()]; ok {
 			e.res.Intrinsics[pk.Pkg.Path()+".*"]++
